@@ -2259,3 +2259,187 @@ Section RootGone.
       destruct (N.eqb ru v) eqn:E; [|reflexivity]. apply N.eqb_eq in E. exfalso. apply Hv. left. exact E.
   Qed.
 End RootGone.
+
+(* ------------------------------------------------------------------ property groups one by one: an item of one property group (an
+   attribute of its node, or its entry in the PropertyGroups block) leaves the object's other property groups, and the
+   rest of the object, as they were *)
+Lemma addr_eqb_app_ne (l : addr) e r : addr_eqb (l ++ e :: r) l = false.
+Proof.
+  apply addr_eqb_neq. intros E. assert (H : List.length (l ++ e :: r) = List.length l) by (rewrite E; reflexivity).
+  rewrite app_length in H. simpl in H. lia.
+Qed.
+Lemma addr_eqb_app_ne' (l : addr) e r : addr_eqb l (l ++ e :: r) = false.
+Proof.
+  apply addr_eqb_neq. intros E. assert (H : List.length (l ++ e :: r) = List.length l) by (rewrite <- E; reflexivity).
+  rewrite app_length in H. simpl in H. lia.
+Qed.
+Lemma addr_eqb_last (l : addr) b c : addr_eqb (l ++ [b]) (l ++ [c]) = key_eqb b c.
+Proof.
+  unfold addr_eqb. induction l as [|e r IH]; cbn [app list_eqb]; [apply andb_true_r|]. rewrite key_eqb_refl. exact IH.
+Qed.
+Lemma remove_key_as_flat_map {V} pk (l : list (key * V)) :
+  flat_map (fun e : key * V => if key_eqb pk (fst e) then [] else [e]) l = remove_key pk l.
+Proof. induction l as [|[k1 v] r IH]; simpl; [reflexivity|]. destruct (key_eqb pk k1); simpl; rewrite IH; reflexivity. Qed.
+
+Lemma flat_map_map_single {X Y} (g : X -> list Y) (F : X -> Y) l : (forall e, In e l -> g e = [F e]) -> flat_map g l = map F l.
+Proof. induction l as [|e r IH]; simpl; intros H; [reflexivity|]. rewrite (H e) by (left; reflexivity). simpl. rewrite IH; [reflexivity|]. intros; apply H; right; assumption. Qed.
+
+Section DelViewPG.
+  Variable s : fspec.
+  Hypothesis Hwf : wf s.
+  Variable x : item.
+  Variable f' : h5.
+  Hypothesis Htop : top f' = [].
+  Hypothesis Hnode : forall b, node_at f' b =
+     if addr_eqb (item_addr x) b then option_map (del_in_node x) (layout_at s b) else layout_at s b.
+  Variable t : etree.
+  Hypothesis Hin : In t (subtrees (fs_root s)).
+  Variable pgs : list (key * amap).
+  Hypothesis Hpgs : et_pgs t = Some pgs.
+
+  Local Notation a := (item_addr x).
+  Local Notation k := (et_kind t).
+  Local Notation u := (et_uid t).
+  Local Notation ea := (ent_addr (et_kind t) (et_uid t)).
+  Local Notation ta := (type_addr (et_kind t) (et_ty t)).
+  Local Notation en' := (if addr_eqb (item_addr x) (ent_addr (et_kind t) (et_uid t)) then del_in_node x (ent_node t) else ent_node t).
+
+  Lemma pg_kind : k = KObject.
+  Proof.
+    destruct (ent_ok_parts s Hwf t Hin) as [_ [_ [_ [Hp _]]]]. destruct k; try reflexivity; (rewrite Hp in Hpgs by discriminate; discriminate).
+  Qed.
+
+  (* the item sits in the PropertyGroups block of [t]: below [ea ++ [KPGs]] *)
+  Variable tail : list key.
+  Hypothesis Ha : a = ea ++ KPGs :: tail.
+
+  Lemma pg_topk : addr_eqb a [] && link_hits x (flat_key k) = false.
+  Proof. rewrite Ha. destruct k; reflexivity. Qed.
+  Lemma pg_flat : addr_eqb a [flat_key k] && link_hits x (KU u) = false.
+  Proof. rewrite Ha. destruct k; cbn; rewrite ?andb_false_r; reflexivity. Qed.
+  Lemma pg_clean : ea_clean x t.
+  Proof. left. rewrite Ha. apply addr_eqb_app_ne. Qed.
+  Lemma pg_ta : addr_eqb a ta = false.
+  Proof. rewrite Ha. destruct k; reflexivity. Qed.
+  Lemma pg_cm : addr_eqb a (ta ++ [KCmap]) = false.
+  Proof. rewrite Ha. destruct k; reflexivity. Qed.
+
+  Definition pg_expr : list (key * amap) :=
+    match get_link f' ea KPGs with
+    | Some _ => match (match sub f' (top f') KObjects with
+                       | Some (oa, _) => match sub_uid f' oa (U u) with Some (ea', _) => sub f' ea' KPGs | None => None end
+                       | None => None
+                       end) with
+                | Some (pa, pn) => pg_list f' pa pn
+                | None => []
+                end
+    | None => []
+    end.
+
+  Lemma view_pgs p : load_entity G0 f' (U u) (Some k) p = Ok (Some (rec_with_pgs s t pg_expr p)).
+  Proof.
+    rewrite (P_view s Hwf x f' Htop Hnode t Hin). rewrite pg_topk, pg_flat.
+    unfold fa_tail. fold pg_expr.
+    destruct (type_spec s Hwf t Hin) as [ts Ets].
+    assert (E1 : addr_eqb a ea && link_hits x KType = false).
+    { apply (ea_clean_link x t KType pg_clean). intros ck. destruct ck; discriminate. }
+    rewrite (sub_type s Hwf x f' Hnode t Hin ts Ets E1 pg_ta). cbn [type_node n_attrs].
+    rewrite (sub_cmap s x f' Hnode t ts Ets pg_ta pg_cm), (sub_vmap s x f' Hnode t ts Ets pg_ta).
+    rewrite (en_attrs x t pg_clean).
+    destruct (ent_ok_parts s Hwf t Hin) as [Hid [_ [_ [_ [_ [_ [_ Hty]]]]]]].
+    unfold create_entity. unfold uid_of_attrs. rewrite Hid.
+    unfold rec_with_pgs. rewrite Ets. cbn [option_map]. unfold tview_of.
+    unfold type_ok in Hty. rewrite Ets in Hty.
+    unfold type_id. cbn [tv_attrs].
+    pose proof (dsets_same s Hwf x f' Htop Hnode t Hin pg_topk pg_flat pg_clean) as Hds.
+    rewrite pg_kind in *. cbn [rkind_of ekind_of] in *.
+    destruct (lookup KID (ts_attrs ts)) as [[n|c|n]|]; try discriminate.
+    destruct (class_name_first c object_classes) as [b|]; [|discriminate]. rewrite Hty. rewrite Hds. reflexivity.
+  Qed.
+
+  (* the PropertyGroups container is found *)
+  Lemma pg_walk : pg_expr = match sub f' ea KPGs with Some (pa, pn) => pg_list f' pa pn | None => [] end.
+  Proof.
+    unfold pg_expr. rewrite (getlink_pgs s Hwf x f' Hnode t Hin pg_clean), Hpgs.
+    pose proof (walk_to_ent s Hwf x f' Htop Hnode t Hin pg_topk pg_flat) as Hw. rewrite pg_kind in Hw. cbn [flat_key] in Hw.
+    destruct (sub f' (top f') KObjects) as [[oa on]|]; [|discriminate]. rewrite pg_kind. rewrite Hw. reflexivity.
+  Qed.
+
+  Lemma pgs_cont_layout : layout_at s (ea ++ [KPGs]) = Some (group_node (map (fun p : key * amap => (fst p, ea ++ [KPGs; fst p])) pgs)).
+  Proof.
+    rewrite L_under. rewrite (find_ent_in s Hwf t Hin). unfold under_entity.
+    rewrite (dsets_no_special s Hwf t Hin KPGs) by auto. rewrite Hpgs. reflexivity.
+  Qed.
+  Lemma pg_node_layout pk pa : In (pk, pa) pgs -> layout_at s (ea ++ [KPGs; pk]) = Some {| n_attrs := pa; n_data := None; n_links := [] |}.
+  Proof.
+    intros Hp. rewrite L_pg. rewrite (find_ent_in s Hwf t Hin), Hpgs.
+    destruct (ent_ok_parts s Hwf t Hin) as [_ [_ [_ [_ [_ [_ [Hnd _]]]]]]].
+    rewrite (nodup_keys_lookup _ _ _ (Hnd pgs Hpgs) Hp). reflexivity.
+  Qed.
+End DelViewPG.
+
+Section PGItems.
+  Variable s : fspec.
+  Hypothesis Hwf : wf s.
+  Variable t : etree.
+  Hypothesis Hin : In t (subtrees (fs_root s)).
+  Variable pgs : list (key * amap).
+  Hypothesis Hpgs : et_pgs t = Some pgs.
+  Local Notation u := (et_uid t).
+  Local Notation ea := (ent_addr (et_kind t) (et_uid t)).
+
+  (* an attribute of the node of property group [pk] *)
+  Lemma pg_attr_deleted pk k0 p :
+    let x := IAttr (ea ++ [KPGs; pk]) k0 in
+    load_entity G0 (delete_item (layout s) x) (U u) (Some (et_kind t)) p
+    = Ok (Some (rec_with_pgs s t (map (fun e : key * amap => if key_eqb pk (fst e) then (fst e, remove_key k0 (snd e)) else e) pgs) p)).
+  Proof.
+    intros x. set (f' := delete_item (layout s) x).
+    assert (Ha : item_addr x = ea ++ KPGs :: [pk]) by reflexivity.
+    rewrite (view_pgs s Hwf x f' eq_refl (Hnode_del s x) t Hin pgs Hpgs [pk] Ha p). f_equal. f_equal. f_equal.
+    rewrite (pg_walk s Hwf x f' eq_refl (Hnode_del s x) t Hin pgs Hpgs [pk] Ha).
+    unfold sub. rewrite (getlink_pgs s Hwf x f' (Hnode_del s x) t Hin (pg_clean x t [pk] Ha)), Hpgs.
+    assert (E : addr_eqb (item_addr x) (ea ++ [KPGs]) = false).
+    { cbn [item_addr x]. replace (ea ++ [KPGs; pk]) with ((ea ++ [KPGs]) ++ pk :: []) by (rewrite <- app_assoc; reflexivity). apply addr_eqb_app_ne. }
+    rewrite (D_node_other s x f' (Hnode_del s x) _ E). rewrite (pgs_cont_layout s Hwf t Hin pgs Hpgs).
+    unfold pg_list, group_node. cbn [n_links]. rewrite flat_map_concat_map, map_map, <- flat_map_concat_map.
+    apply flat_map_map_single. intros [pk' pa] Hp. cbn [fst snd].
+    rewrite (Hnode_del s x). cbn [item_addr x].
+    replace (ea ++ [KPGs; pk]) with ((ea ++ [KPGs]) ++ [pk]) by (rewrite <- app_assoc; reflexivity).
+    replace (ea ++ [KPGs; pk']) with ((ea ++ [KPGs]) ++ [pk']) by (rewrite <- app_assoc; reflexivity).
+    rewrite addr_eqb_last.
+    replace ((ea ++ [KPGs]) ++ [pk']) with (ea ++ [KPGs; pk']) by (rewrite <- app_assoc; reflexivity).
+    rewrite (pg_node_layout s Hwf t Hin pgs Hpgs pk' pa Hp).
+    destruct (key_eqb pk pk'); reflexivity.
+  Qed.
+
+  (* the entry of property group [pk] in the PropertyGroups block *)
+  Lemma pg_entry_deleted pk p :
+    let x := ILink (ea ++ [KPGs]) pk in
+    load_entity G0 (delete_item (layout s) x) (U u) (Some (et_kind t)) p
+    = Ok (Some (rec_with_pgs s t (remove_key pk pgs) p)).
+  Proof.
+    intros x. set (f' := delete_item (layout s) x).
+    assert (Ha : item_addr x = ea ++ KPGs :: []) by reflexivity.
+    rewrite (view_pgs s Hwf x f' eq_refl (Hnode_del s x) t Hin pgs Hpgs [] Ha p). f_equal. f_equal. f_equal.
+    rewrite (pg_walk s Hwf x f' eq_refl (Hnode_del s x) t Hin pgs Hpgs [] Ha).
+    unfold sub. rewrite (getlink_pgs s Hwf x f' (Hnode_del s x) t Hin (pg_clean x t [] Ha)), Hpgs.
+    rewrite (Hnode_del s x). cbn [item_addr x]. rewrite addr_eqb_refl. rewrite (pgs_cont_layout s Hwf t Hin pgs Hpgs).
+    cbn [option_map]. unfold pg_list. rewrite del_links. cbn [x group_node n_links].
+    rewrite flat_map_remove_key. rewrite flat_map_concat_map, map_map, <- flat_map_concat_map.
+    rewrite <- remove_key_as_flat_map. apply flat_map_ext_in. intros [pk' pa] Hp. cbn [fst snd].
+    destruct (key_eqb pk pk'); [reflexivity|].
+    assert (E : addr_eqb (item_addr x) (ea ++ [KPGs; pk']) = false).
+    { cbn [item_addr x]. replace (ea ++ [KPGs; pk']) with ((ea ++ [KPGs]) ++ pk' :: []) by (rewrite <- app_assoc; reflexivity). apply addr_eqb_app_ne'. }
+    rewrite (D_node_other s x f' (Hnode_del s x) _ E). rewrite (pg_node_layout s Hwf t Hin pgs Hpgs pk' pa Hp). reflexivity.
+  Qed.
+End PGItems.
+
+Lemma lookup_map_other {V} pk pk' (h : V -> V) (l : list (key * V)) : pk' <> pk ->
+  lookup pk' (map (fun e : key * V => if key_eqb pk (fst e) then (fst e, h (snd e)) else e) l) = lookup pk' l.
+Proof.
+  intros Hne. induction l as [|[k1 v] r IH]; simpl; [reflexivity|].
+  destruct (key_eqb pk k1) eqn:E; simpl.
+  - apply key_eqb_eq in E. subst k1. destruct (key_eqb pk' pk) eqn:E2; [apply key_eqb_eq in E2; contradiction | exact IH].
+  - destruct (key_eqb pk' k1); [reflexivity | exact IH].
+Qed.
